@@ -40,9 +40,10 @@ class Intervals:
     """range_of(expr, ty) -> (lo, hi), conservative. `summaries` maps callee path regex -> (lo, hi) for crate-local
     functions whose every return value is a known constant (computed by the caller)."""
 
-    def __init__(self, summaries=None, facts=None):
+    def __init__(self, summaries=None, facts=None, argtys=None):
         self.summaries = summaries or {}
         self.facts = facts or []   # list of (op, x_expr, y_expr) known true (normed expressions)
+        self.argtys = argtys or {}  # parameter index -> declared type (a conversion call like u64::from(x) hides the source width)
 
     def range_of(self, e, ty, depth=0):
         r = self._range(e, ty, depth)
@@ -94,6 +95,8 @@ class Intervals:
             if isinstance(e[2], int):
                 return (e[2], e[2])
             return ty_range(ty)
+        if k == "arg" and e[1] in self.argtys and self.argtys[e[1]] in INT_RANGES:
+            return _isect(ty_range(self.argtys[e[1]]), ty_range(ty)) if ty in INT_RANGES else ty_range(self.argtys[e[1]])
         if k == "cast":
             inner = self.range_of(e[1], e[2], depth + 1)
             inner = _isect(inner, ty_range(e[2]))
@@ -130,7 +133,7 @@ class Intervals:
             name = e[1]
             res = e[3] or ""
             for pat, rng in self.summaries.items():
-                if re.search(pat, name) or re.search(pat, res):
+                if not pat.startswith("ok:") and (re.search(pat, name) or re.search(pat, res)):
                     return rng
             if re.search(r"cmp::Ord::min$|::min$", name) and len(e[2]) == 2:
                 a = self.range_of(e[2][0], ty, depth + 1)
@@ -149,7 +152,14 @@ class Intervals:
                 return (ty_range(ty)[0] if ty_range(ty)[0] > -1 else 0, a[1]) if ty.startswith("u") else ty_range(ty)
             return ty_range(ty)
         if k == "ok":
-            # payload of Ok/Some of a call: known for len-like calls only
+            inner = e[1]
+            if inner[0] == "call":
+                m = re.search(r"ReadBytesExt::read_u(8|16|32|64)$", inner[1])
+                if m:
+                    return (0, (1 << int(m.group(1))) - 1)
+                for pat, rng in self.summaries.items():
+                    if pat.startswith("ok:") and (re.search(pat[3:], inner[1]) or re.search(pat[3:], inner[3] or "")):
+                        return rng
             return ty_range(ty)
         return ty_range(ty)
 
@@ -282,3 +292,7 @@ def dominating_facts(fn, ex, bb):
         if len(reaching) == 1:
             facts.extend(edge_facts(fn, ex, d, reaching[0]))
     return facts
+
+
+def argtys_of(fn):
+    return {i: fn.locals[i]["ty"] for i in range(1, fn.arg_count + 1)}
